@@ -67,6 +67,9 @@ StartStage(s) == /\ phase # "bake_failed"
                     ELSE /\ open' = s /\ ostart' = nsteps /\ last' = "ok"
                          /\ UNCHANGED <<declared, touched, closed, nsteps, phase>>
 
+StartReserved == /\ phase # "bake_failed"
+                 /\ Refuse(IF Locked THEN "RuntimeError" ELSE "ValueError")
+
 EndStage(s) == /\ phase # "bake_failed"
                /\ IF Locked THEN Refuse("RuntimeError")
                   ELSE IF open # s THEN Refuse("ValueError")
@@ -103,7 +106,8 @@ Next == \/ \E o \in Declarable : Uses(o)
         \/ \E n \in Declarable : ClashCreate(n)
         \/ \E n \in Creatable : ClashUses(n)
         \/ \E s \in StageNames : StartStage(s)
-        \/ \E s \in StageNames \cup {"never-started"} : EndStage(s)   \* ending a stage that is not the open one
+        \/ \E s \in StageNames \cup {"never-started", "all"} : EndStage(s)  \* ending a stage that is not the open one
+        \/ StartReserved              \* "all" is the reserved name of the whole recipe: never a stage of its own
         \/ Bake
 Spec == Init /\ [][Next]_vars
 
